@@ -231,6 +231,7 @@ func runCfg(n *node, f *frame, funcNode, callNode *node) {
 	dbg := n.interp.debugger
 	if dbg == nil {
 		for exec := n.exec; exec != nil && f.runid() == n.interp.runid(); {
+			verifStep(n.interp, f)
 			exec = exec(f)
 		}
 		return
@@ -244,6 +245,7 @@ func runCfg(n *node, f *frame, funcNode, callNode *node) {
 	defer dbg.exitCall(funcNode, callNode, f)
 
 	for m, exec := n, n.exec; f.runid() == n.interp.runid(); {
+		verifStep(n.interp, f)
 		if dbg.exec(m, f) {
 			break
 		}
